@@ -9,6 +9,7 @@ import Compass.Proofs.Num
 import Compass.Model.Search
 import Mathlib.Data.List.Chain
 import Mathlib.Data.List.Nodup
+import Mathlib.Data.List.Perm.Subperm
 import Mathlib.Logic.Function.Iterate
 
 namespace Compass
@@ -413,6 +414,163 @@ theorem runAStar_treeInv {I : Inst α} (hI : WF I) (source : Nat) (target : Opti
   rcases runAStar_treeInv' hI source target sched s h with h | h
   · exact Or.inl h
   · exact Or.inr h.2.1
+
+/-! ### Consequences: labels strictly decrease towards the root -/
+
+/-- both labelled, and the label of `u` is strictly below the label of `v` -/
+def LabelLt (s : SState α) (u v : Nat) : Prop :=
+  ∃ gu gv, s.g u = some gu ∧ s.g v = some gv ∧ gu < gv
+
+theorem LabelLt.trans {s : SState α} {u v w : Nat} (h1 : LabelLt s u v) (h2 : LabelLt s v w) :
+    LabelLt s u w := by
+  obtain ⟨a, b, ha, hb, hab⟩ := h1
+  obtain ⟨b', c, hb', hc, hbc⟩ := h2
+  rw [hb] at hb'
+  cases hb'
+  exact ⟨a, c, ha, hc, lt_trans hab hbc⟩
+
+theorem LabelLt.irrefl {s : SState α} {v : Nat} (h : LabelLt s v v) : False := by
+  obtain ⟨a, b, ha, hb, hab⟩ := h
+  rw [ha] at hb
+  cases hb
+  exact lt_irrefl _ hab
+
+theorem LabelLt.ne {s : SState α} {u v : Nat} (h : LabelLt s u v) : u ≠ v := by
+  intro huv
+  subst huv
+  exact h.irrefl
+
+/-- the parent of a tree entry has a strictly smaller label (strict because costs are positive) -/
+theorem parent_label_lt {I : Inst α} {source : Nat} {s : SState α} (hinv : TreeInv I source s)
+    {v : Nat} {b : Branch α} (h : s.sol v = some b) :
+    ∃ gu gv, s.g b.terminal = some gu ∧ s.g v = some gv ∧ gu < gv := by
+  obtain ⟨_, _, _, hc, ⟨gu, gv, hgu, hgv, hle⟩, _⟩ := hinv.entry v b h
+  exact ⟨gu, gv, hgu, hgv, by linarith⟩
+
+/-- `u` is a proper ancestor of `v` in the tree -/
+inductive Anc (sol : Nat → Option (Branch α)) : Nat → Nat → Prop
+  | parent {v : Nat} {b : Branch α} : sol v = some b → Anc sol b.terminal v
+  | step {u v : Nat} {b : Branch α} : sol v = some b → Anc sol u b.terminal → Anc sol u v
+
+theorem anc_label_lt {I : Inst α} {source : Nat} {s : SState α} (hinv : TreeInv I source s)
+    {u v : Nat} (h : Anc s.sol u v) : LabelLt s u v := by
+  induction h with
+  | parent hb => exact parent_label_lt hinv hb
+  | step hb _ ih => exact ih.trans (parent_label_lt hinv hb)
+
+/-- no vertex is its own ancestor -/
+theorem acyclic {I : Inst α} {source : Nat} {s : SState α} (hinv : TreeInv I source s) (v : Nat) :
+    ¬ Anc s.sol v v :=
+  fun h => (anc_label_lt hinv h).irrefl
+
+/-! ### Consequences: backtracking -/
+
+/-- `r` is the list of tree entries met walking up from `t` to the source, in travel order of the
+search direction (the entry leaving the source first, the entry of `t` last) -/
+inductive PathTo (source : Nat) (sol : Nat → Option (Branch α)) : Nat → List (Branch α) → Prop
+  | nil : PathTo source sol source []
+  | snoc {v : Nat} {b : Branch α} {r : List (Branch α)} :
+      v ≠ source → sol v = some b → PathTo source sol b.terminal r →
+      PathTo source sol v (r ++ [b])
+
+/-- the walk of `backtrackAux`: with `visited` the edges of strict descendants and enough fuel, it
+succeeds and returns a `PathTo` prefixed to the accumulator -/
+theorem backtrackAux_ok {I : Inst α} {source : Nat} {s : SState α} (hinv : TreeInv I source s) :
+    ∀ (fuel v : Nat) (visited : List Nat) (acc : List (Branch α)),
+      (v = source ∨ (s.sol v).isSome) →
+      s.solSize < fuel + visited.length →
+      (visited.map I.keyV).Nodup →
+      (∀ e ∈ visited, (s.sol (I.keyV e)).isSome ∧ LabelLt s v (I.keyV e)) →
+      ∃ r, PathTo source s.sol v r ∧
+        backtrackAux source s.sol fuel v visited acc = .ok (r ++ acc) := by
+  intro fuel
+  induction fuel with
+  | zero =>
+    intro v visited acc _ hfuel hnd hvis
+    exfalso
+    obtain ⟨keys, hknd, hklen, hkmem⟩ := hinv.keys
+    have hsub : visited.map I.keyV ⊆ keys := by
+      intro x hx
+      obtain ⟨e, he, rfl⟩ := List.mem_map.1 hx
+      exact (hkmem _).1 (hvis e he).1
+    have := (hnd.subperm hsub).length_le
+    simp at this
+    omega
+  | succ fuel ih =>
+    intro v visited acc hv hfuel hnd hvis
+    unfold backtrackAux
+    by_cases hvs : v = source
+    · subst hvs
+      exact ⟨[], PathTo.nil, by simp⟩
+    · rw [if_neg hvs]
+      have hsome : (s.sol v).isSome := hv.resolve_left hvs
+      obtain ⟨b, hb⟩ := Option.isSome_iff_exists.1 hsome
+      rw [hb]
+      obtain ⟨hkey, _, _, _, _, hterm⟩ := hinv.entry v b hb
+      have hplt : LabelLt s b.terminal v := parent_label_lt hinv hb
+      have hnotin : I.keyV b.edge ∉ visited.map I.keyV := by
+        intro hx
+        obtain ⟨e, he, hek⟩ := List.mem_map.1 hx
+        have := (hvis e he).2
+        rw [hek, hkey] at this
+        exact this.irrefl
+      have hnv : b.edge ∉ visited := fun hx => hnotin (List.mem_map_of_mem hx)
+      have hcont : visited.contains b.edge = false := by simpa using hnv
+      simp only [hcont]
+      obtain ⟨r, hr, hrun⟩ := ih b.terminal (b.edge :: visited) (b :: acc) hterm
+        (by simp only [List.length_cons]; omega)
+        (by rw [List.map_cons]; exact List.nodup_cons.2 ⟨hnotin, hnd⟩)
+        (by
+          intro e he
+          rcases List.mem_cons.1 he with rfl | he
+          · rw [hkey]; exact ⟨hsome, hplt⟩
+          · exact ⟨(hvis e he).1, hplt.trans (hvis e he).2⟩)
+      refine ⟨r ++ [b], PathTo.snoc hvs hb hr, ?_⟩
+      simp only [Bool.false_eq_true, if_false]
+      rw [hrun]
+      simp
+
+/-- backtracking from the source or from any vertex with a tree entry succeeds with the fuel
+`solSize + 1`: never `panic "backtrack-fuel"`, never `internal` -/
+theorem backtrack_ok {I : Inst α} {source : Nat} {s : SState α} (hinv : TreeInv I source s)
+    {t : Nat} (ht : t = source ∨ (s.sol t).isSome) :
+    ∃ route, PathTo source s.sol t route ∧
+      backtrack source t s.sol (s.solSize + 1) = .ok route := by
+  obtain ⟨r, hr, hrun⟩ := backtrackAux_ok hinv (s.solSize + 1) t [] [] ht (by simp) (by simp)
+    (by simp)
+  exact ⟨r, hr, by simpa [backtrack] using hrun⟩
+
+/-- the route of a successful backtrack is the `PathTo` (whatever the fuel) -/
+theorem backtrackAux_sound {source : Nat} {sol : Nat → Option (Branch α)} :
+    ∀ (fuel v : Nat) (visited : List Nat) (acc out : List (Branch α)),
+      backtrackAux source sol fuel v visited acc = .ok out →
+      ∃ r, PathTo source sol v r ∧ out = r ++ acc := by
+  intro fuel
+  induction fuel with
+  | zero => intro v visited acc out h; simp [backtrackAux] at h
+  | succ fuel ih =>
+    intro v visited acc out h
+    unfold backtrackAux at h
+    split at h
+    · rename_i hv
+      cases h
+      subst hv
+      exact ⟨[], PathTo.nil, by simp⟩
+    · rename_i hv
+      split at h
+      · cases h
+      · rename_i b hb
+        split at h
+        · cases h
+        · obtain ⟨r, hr, hout⟩ := ih _ _ _ _ h
+          exact ⟨r ++ [b], PathTo.snoc hv hb hr, by simp [hout]⟩
+
+theorem backtrack_sound {source t : Nat} {sol : Nat → Option (Branch α)} {fuel : Nat}
+    {route : List (Branch α)} (h : backtrack source t sol fuel = .ok route) :
+    PathTo source sol t route := by
+  obtain ⟨r, hr, hout⟩ := backtrackAux_sound fuel t [] [] route h
+  simp at hout
+  rw [hout]; exact hr
 
 end SearchTree
 end Compass
